@@ -17,7 +17,7 @@ from harness import core
 
 LEVEL = "model_checking"
 KNOWN_ID = "C38-string-prefix"
-MAX_RECORDED = 12  # replay files written per run (the rest is only counted)
+MAX_RECORDED = 8  # replay files written per run (the rest is only counted)
 
 
 # ------------------------------------------------------------------ TLC side
@@ -32,6 +32,8 @@ CONSTANTS
   QDepth = {qdepth}
   Shard = {shard}
   NShards = {nshards}
+  Pre <- FastPre
+  RLen <- FastRLen
 INVARIANT Emit
 INVARIANT Theorems
 CHECK_DEADLOCK FALSE
@@ -201,7 +203,6 @@ def selftest(ctx, queries, cases):
 def judge_all(ctx, queries, cases, label):
     res = core.pmap(check_case, [(c, queries, ctx.seed) for c in cases], chunksize=32)
     order = sorted(range(len(cases)), key=lambda i: (len(cases[i]["tbl"]), sum(len(e["mp"]) for e in cases[i]["tbl"])))
-    recorded = 0
     for i in order:
         case, r = cases[i], res[i]
         pairs = None
@@ -220,10 +221,10 @@ def judge_all(ctx, queries, cases, label):
                           known_id=KNOWN_ID, asbuilt=asb, first_difference=d)
                 continue
             ctx.extra["deviating_runs"] = ctx.extra.get("deviating_runs", 0) + 1
-            if recorded >= MAX_RECORDED:
+            if ctx.extra.get("violations_recorded", 0) >= MAX_RECORDED:
                 ctx.extra["violations_not_recorded"] = ctx.extra.get("violations_not_recorded", 0) + 1
                 continue
-            recorded += 1
+            ctx.extra["violations_recorded"] = ctx.extra.get("violations_recorded", 0) + 1
             tag = "equals the as-built string-prefix prediction" if v == "asbuilt" else "NOT the as-built prediction"
             ctx.judge(False, f"mount lookup deviates from the component-wise reference ({tag}): {d}",
                       case=full, expected=exp, observed=obs, known_id=KNOWN_ID, asbuilt=asb, first_difference=d)
@@ -253,7 +254,11 @@ def run(ctx):
         sh = rng.sample(range(60), 3)
         spaces.append((f"D3-N3-Q3-shards{sh}of60", generate(ctx, 3, 3, 3, 3, nshards=60, shards=sh)))
     else:
-        spaces.append(("D2-N3-Q3", generate(ctx, 2, 1, 3, 3, nshards=8)))
+        with ThreadPoolExecutor(max_workers=2) as ex:
+            f1 = ex.submit(generate, ctx, 2, 1, 2, 3, 2)
+            f2 = ex.submit(generate, ctx, 1, 3, 3, 3, 1)
+            spaces.append(("D2-N2-Q3", f1.result()))
+            spaces.append(("D1-N3-Q3", f2.result()))
     ctx.exhaustive = True
     selftest(ctx, *spaces[0][1])
     for label, (queries, cases) in spaces:
